@@ -1,6 +1,7 @@
 # Unit varset: the variable store of yash-env (property C16: scoping over all histories).
 VAR = 'yash-env/src/variable.rs'
 MAIN = 'yash-env/src/variable/main.rs'
+GUARD = 'yash-env/src/variable/guard.rs'
 MOD_HEAD = '''    use vstd::prelude::*;
     use std::collections::HashMap;
     use std::collections::hash_map::Entry::{Occupied, Vacant};
@@ -207,6 +208,15 @@ UNIT = {
             'final(self).ctxs() == old(self).ctxs().push(context)',
             'forall|n: String| #[trigger] final(self).stack(n) == old(self).stack(n)',
         ]}),
+        # RAII of the context guard (yash-env/src/variable/guard.rs), constructor and destructor bodies: while the guard lives the
+        # context is on top of what was there; dropping it pops exactly that context (checked as an inherent method: Verus does
+        # not call Drop itself, so that the destructor RUNS when the guard goes away stays an assumption of the callers' units)
+        (GUARD, ['struct ContextGuard'], {'pub_fields': True, 'drop_derives': 'all'}),
+        (GUARD, ['impl VariableSet', 'fn push_context'], {'ret': 'g', 'requires': [WF],
+            'ensures': ['g.stack.wf()', 'g.stack.ctxs() == old(self).ctxs().push(context)', 'forall|n: String| #[trigger] g.stack.stack(n) == old(self).stack(n)', '*final(g.stack) == *final(self)']}),
+        (GUARD, ["impl std::ops::Drop for ContextGuard<'_>", 'fn drop'], {'wrapper': "impl<'a> ContextGuard<'a>",
+            'requires': ['old(self).stack.wf()', 'old(self).stack.ctxs().len() >= 2'],
+            'ensures': ['final(self).stack.wf()', 'final(self).stack.ctxs() == old(self).stack.ctxs().drop_last()']}),
         ('@raw', '}\n'),
     ],
 }
